@@ -28,7 +28,7 @@ func main() {
 		"C10": c10.H{},
 		"C11": harness.External{Property: "C11", Ver: "c11-v6", M: plat.C11Meta(), Quick: 600, Thor: 20000, Bin: "plat.test", TestName: "TestJob", Classify: plat.ClassifyExit},
 		"C12": harness.External{Property: "C12", Ver: "c12-v5", M: plat.C12Meta(), Quick: 2400, Thor: 60000, Bin: "plat.test", TestName: "TestJob", Classify: plat.ClassifyExit},
-		"C14": harness.External{Property: "C14", Ver: "c14-v2", M: plat.C14Meta(), Quick: 800, Thor: 20000, Bin: "plat.test", TestName: "TestJob", Classify: plat.ClassifyExit},
+		"C14": harness.External{Property: "C14", Ver: "c14-v3", M: plat.C14Meta(), Quick: 800, Thor: 20000, Bin: "plat.test", TestName: "TestJob", Classify: plat.ClassifyExit},
 		"C15": c15.H{},
 		"C16": c16.H{},
 		"C17": c17.H{},
